@@ -431,6 +431,8 @@ def run_case(case, root, ck=None):
                           cnt('failpack:' + errname(e))
                       finally:
                           env.clear_pack_failure()
+                      if env.lines and env.lines[-1].startswith('pack '):      # it returned: nothing to pack
+                          L.packed_to = max(L.packed_to, int(env.lines[-1].split()[1]))
                       check('pack-failed')            # nothing was packed: nothing may have changed
                   elif kind == 'pack':
                       if txn is not None or not L.txns:
